@@ -140,7 +140,7 @@ func rep(dst []string, n int, lex ...string) []string {
 }
 
 // DeepFamilies is the number of program families of H_C12deep.
-const DeepFamilies = 18
+const DeepFamilies = 28
 
 // deepProgram returns family f at size n as a lexeme list; the families nest or
 // repeat one construct n times (valid and invalid ones).
@@ -208,6 +208,40 @@ func deepProgram(f, n int) []string {
 	case 17: // repeated as + where (name tables grow)
 		p = []string{"T"}
 		p = rep(p, n, "|", "as", "a", "|", "where", "a", "==", "1")
+	case 18: // nested joins that all lack their conditions (error density grows with depth)
+		p = []string{"T"}
+		p = rep(p, n, "|", "join", "(", "T")
+		p = rep(p, n, ")")
+	case 19: // unclosed nested joins
+		p = []string{"T"}
+		p = rep(p, n, "|", "join", "(", "T")
+	case 20: // nested calls with trailing commas, unclosed
+		p = rep(p, n, "f", "(", "a", ",")
+	case 21: // nested index expressions
+		p = rep(p, n, "a", "[")
+		p = append(p, "1")
+		p = rep(p, n, "]")
+	case 22: // nested not() without closing parentheses
+		p = rep(p, n, "not", "(")
+		p = append(p, "a")
+	case 23: // one call with n arguments
+		p = append(p, "f", "(", "a")
+		p = rep(p, n, ",", "a")
+		p = append(p, ")")
+	case 24: // one in-list with n values
+		p = append(p, "a", "in", "(", "1")
+		p = rep(p, n, ",", "1")
+		p = append(p, ")")
+	case 25: // n sort terms (via project: the narrow vocabulary has no sort)
+		p = []string{"T", "|", "project", "a"}
+		p = rep(p, n, ",", "a", "=", "f", "(", "a", ",", "1", ")")
+	case 26: // join with n conditions
+		p = []string{"T", "|", "join", "(", "T", ")", "on", "a"}
+		p = rep(p, n, ",", "a")
+	case 27: // call arguments that are calls, n wide and 3 deep
+		p = append(p, "f", "(", "a")
+		p = rep(p, n, ",", "f", "(", "f", "(", "a", ")", ",", "1", ")")
+		p = append(p, ")")
 	default:
 		panic("unknown deep family")
 	}
@@ -229,4 +263,16 @@ func H_C12deep(f, n int) {
 		verif.Cover("kilobytes")
 	}
 	Entry(src, 13)
+}
+
+// H_C12long is totality on the framed byte-level families of C09 (long strings, names,
+// comments and numbers with arbitrary bytes at either end, unterminated ones included).
+func H_C12long(f, nmax int) {
+	n := verif.Concrete(verif.IntRange(0, nmax+1))
+	src := longSource(f, n)
+	if verif.Bool() {
+		src = "T | where a == " + src
+	}
+	Entry(src, 13)
+	verif.Cover("long-bytes")
 }
